@@ -1,4 +1,5 @@
 """C23 String and bracket-string literals read with Python's escape semantics."""
+import re
 import warnings
 
 PROP = "C23"
@@ -15,10 +16,10 @@ RULE = (
 )
 ASSUMPTIONS = [
     "CPython 3.12's tokenizer defines the value/validity of the equivalent Python literal (SyntaxWarning for invalid escapes counts as invalid)",
-    "octal escapes above \\377 are not generated for bytes (CPython itself only warns there)",
+    "octal escapes above \\377 are recognised escapes: CPython defines their value (and warns); the value must agree",
 ]
 
-VALID_ESC = ["\\n", "\\t", "\\\\", '\\"', "\\'", "\\a", "\\b", "\\f", "\\v", "\\r", "\\0", "\\7", "\\12", "\\101", "\\377", "\\x41", "\\x00", "\\xff", "\\xAb",
+VALID_ESC = ["\\n", "\\t", "\\\\", '\\"', "\\'", "\\a", "\\b", "\\f", "\\v", "\\r", "\\0", "\\7", "\\12", "\\101", "\\377", "\\400", "\\777", "\\501", "\\x41", "\\x00", "\\xff", "\\xAb",
              "\\N{DIGIT ONE}", "\\N{LATIN SMALL LETTER E WITH ACUTE}", "\\N{SNOWMAN}", "\\N{digit one}", "\\u00e9", "\\u0041", "\\ud800", "\\uFFFF", "\\U0001F600",
              "\\U00000041", "\\\n", "\\\r\n", "\\\r", "\\08", "\\1a", "\\x4g1"[:4] + "1"]
 INVALID_ESC = ["\\q", "\\8", "\\9", "\\z", "\\ ", "\\N", "\\N{", "\\N{}", "\\N{NO SUCH CHARACTER}", "\\N{DIGIT ONE", "\\x", "\\x4", "\\xg1", "\\u", "\\u12", "\\u123g",
@@ -37,12 +38,37 @@ def python_value(prefix, body):
     with warnings.catch_warnings():
         warnings.simplefilter("error")
         try:
+            if "r" not in prefix and _BIG_OCTAL.search(body):
+                # \400..\777 are recognised (octal) escapes whose value CPython defines (and warns about): not "unrecognised".
+                # CPython reports only the first questionable escape of a literal, so validity is judged on the body with
+                # these escapes replaced by \001, and the value on the body as written.
+                eval(compile(prefix + '"""' + _sub_big_octal(body) + '"""', "<c23>", "eval"))
+                warnings.simplefilter("ignore")
             v = eval(compile(src, "<c23>", "eval"))
             return ("value", v)
         except (SyntaxError, SyntaxWarning, DeprecationWarning) as e:
             return ("invalid", type(e).__name__ + ": " + str(e)[:60])
         except ValueError as e:  # e.g. source contains a NUL
             return ("skip", str(e))
+
+
+_BIG_OCTAL = re.compile(r"\\[4-7][0-7][0-7]")
+
+
+def _sub_big_octal(body):
+    out, i = [], 0
+    while i < len(body):
+        if body[i] == "\\":
+            if _BIG_OCTAL.match(body, i):
+                out.append("\\001")
+                i += 4
+            else:
+                out.append(body[i:i + 2])
+                i += 2
+        else:
+            out.append(body[i])
+            i += 1
+    return "".join(out)
 
 
 def body_ok(body, raw):
@@ -59,8 +85,7 @@ def body_ok(body, raw):
 
 
 def in_scope(prefix, body):
-    """Out of scope: a backslash followed by a non-ASCII character (CPython neither recognises nor warns about it),
-    and octal escapes above \\377 (CPython 3.12 only warns)."""
+    """Out of scope: a backslash followed by a non-ASCII character (CPython neither recognises nor warns about it)."""
     import re
 
     if "r" in prefix:
@@ -70,9 +95,6 @@ def in_scope(prefix, body):
         if body[i] == "\\":
             nxt = body[i + 1:i + 2]
             if nxt and ord(nxt) > 127:
-                return False
-            m = re.match(r"[0-7]{3}", body[i + 1:i + 4])
-            if m and int(m.group(0), 8) > 0o377:
                 return False
             i += 2
             continue
